@@ -782,7 +782,8 @@ static void run_conv(ctx_t *c, const sys_t *s)
     int nz = (c->path == P_ZTOY || c->path == P_YTOZ) ? 1 :
 	(s->kind != K_REGULAR ? 1 : 2);
 
-    for (int zs = 0; zs < nz; ++zs) {
+    for (int zi_ = 0; zi_ < 2 * nz; ++zi_) {
+	const int zs = zi_ / 2, inplace = zi_ % 2;
 	dc z0[NSQ], in[NSQ * NSQ], out[NSQ * NSQ];
 	lc_t A[NSQ * NSQ], B[NSQ * NSQ], K[NSQ];
 	long double Am[NSQ * NSQ], Bm[NSQ * NSQ];
@@ -859,14 +860,24 @@ static void run_conv(ctx_t *c, const sys_t *s)
 		Bm[i * n + j] = cabsl(t3) + cabsl(t4);
 	    }
 	}
-	switch (c->path) {
-	case P_ZTOY: vnaconv_ztoyn(in, out, n); break;
-	case P_YTOZ: vnaconv_ytozn(in, out, n); break;
-	case P_STOZ: vnaconv_stozn(in, out, z0, n); break;
-	case P_ZTOS: vnaconv_ztosn(in, out, z0, n); break;
-	case P_STOY: vnaconv_stoyn(in, out, z0, n); break;
-	case P_YTOS: vnaconv_ytosn(in, out, z0, n); break;
+	/* a result buffer that is never written must not pass for a
+	   singular input: it starts as the input (plausible numbers); the
+	   second pass converts in place, which vnaconv(3) permits */
+	if (s->kind != K_REGULAR || inplace)
+	    memcpy(out, in, sizeof(dc) * (size_t)nn);
+	{
+	    const dc *src = inplace ? out : in;
+	    switch (c->path) {
+	    case P_ZTOY: vnaconv_ztoyn(src, out, n); break;
+	    case P_YTOZ: vnaconv_ytozn(src, out, n); break;
+	    case P_STOZ: vnaconv_stozn(src, out, z0, n); break;
+	    case P_ZTOS: vnaconv_ztosn(src, out, z0, n); break;
+	    case P_STOY: vnaconv_stoyn(src, out, z0, n); break;
+	    case P_YTOS: vnaconv_ytosn(src, out, z0, n); break;
+	    }
 	}
+	snprintf(extra + strlen(extra), sizeof(extra) - strlen(extra), "%s",
+		inplace ? " in place" : "");
 	if (s->kind != K_REGULAR) {
 	    /* only assert on inputs whose divided-by matrix is exactly the
 	       integer singular matrix */
